@@ -992,12 +992,6 @@ where
                     ..
                 }) = self.ports.get_mut(&port)
                 {
-                    // A port message without ports uses no flow credits and thus could be
-                    // queued without limit. It is never sent by a well-behaved endpoint.
-                    if ports.is_empty() {
-                        return Err(protocol_err(format!("received port data without ports on port {}", &port)));
-                    }
-
                     for port in &ports {
                         if !self.outstanding_remote_port_requests.insert(*port) {
                             return Err(protocol_err(format!(
@@ -1009,7 +1003,9 @@ where
                     let used_credit =
                         match ports.len().checked_mul(size_of::<u32>()).and_then(|v| u32::try_from(v).ok()) {
                             Some(size) if size <= self.local_cfg.chunk_size => {
-                                receiver_credit_monitor.use_credits(size)?
+                                // A port message without ports is charged like empty data,
+                                // otherwise any number of them could be queued.
+                                receiver_credit_monitor.use_credits(size.max(1))?
                             }
                             _ => {
                                 return Err(protocol_err(format!(
